@@ -45,7 +45,7 @@ func RunWorker(prop string, seed uint64, worker, cases int, scratch, out string,
 	for _, s := range CtlStates {
 		combos = append(combos, struct{ target, state string }{"controller", s})
 	}
-	for _, s := range RepStates {
+	for _, s := range append(append([]string(nil), RepStates...), "reverted") {
 		combos = append(combos, struct{ target, state string }{"replica", s})
 	}
 	for ci, cb := range combos {
@@ -83,7 +83,7 @@ func RunWorker(prop string, seed uint64, worker, cases int, scratch, out string,
 		// this worker's share of the matrix
 		var mine []Req
 		for i, rq := range reqs {
-			if full {
+			if full || strings.Contains(rq.Class, "hostile-field") {
 				if i%nworkers == worker%nworkers {
 					mine = append(mine, rq)
 				}
@@ -120,6 +120,16 @@ func RunWorker(prop string, seed uint64, worker, cases int, scratch, out string,
 				sess.Send(reqs[r.Intn(len(reqs))])
 			}
 			res.Count("drift_sequences", 1)
+		}
+		// concurrent requests: well-formed ones and reads, from several goroutines
+		if !sess.Dead && ok {
+			var pool []Req
+			for _, rq := range reqs {
+				if (rq.Valid || rq.Method == "GET") && rq.Class != "pprof-index" {
+					pool = append(pool, rq)
+				}
+			}
+			sess.Burst(pool, 8, 25, r)
 		}
 		if closer != nil {
 			closer()
